@@ -6,6 +6,8 @@ pub type AreaFn = fn(&Value) -> Vec<Value>;
 pub mod co;
 pub mod sched;
 mod pool;
+mod net20;
+mod net21;
 mod ows;
 mod time;
 
@@ -16,6 +18,8 @@ pub fn lookup(name: &str) -> Option<AreaFn> {
         "co" => Some(co::run),
         "sched" => Some(sched::run),
         "pool" => Some(pool::run),
+        "net20" => Some(net20::run),
+        "net21" => Some(net21::run),
         _ => None,
     }
 }
